@@ -3,11 +3,13 @@
 package filtering
 
 import (
+	"fmt"
 	"net/netip"
 	"sort"
 	"strings"
 
 	"github.com/miekg/dns"
+	"gopkg.in/yaml.v3"
 )
 
 // This file holds the reference model of property C06 (DESIGN.md, appendix
@@ -607,4 +609,63 @@ func c06RuleFor(exp *c06Expect, o c06Obs) string {
 	}
 
 	return rule
+}
+
+// c06RestartThroughConfigFile takes the product's own way through a restart:
+// WriteDiskConfig copies the configuration for the YAML file, the copy is
+// marshalled with the struct's yaml tags (as home does for the filtering
+// section), unmarshalled into a fresh Config and given to New.  It returns the
+// new filter and the table as it stood in the file.
+func c06RestartThroughConfigFile(d *DNSFilter, dataDir string) (nd *DNSFilter, inFile []c06Entry, err error) {
+	dc := &Config{}
+	d.WriteDiskConfig(dc)
+	b, err := yaml.Marshal(dc)
+	if err != nil {
+		return nil, nil, fmt.Errorf("marshalling: %w", err)
+	}
+	nc := &Config{}
+	if err = yaml.Unmarshal(b, nc); err != nil {
+		return nil, nil, fmt.Errorf("unmarshalling: %w", err)
+	}
+	for _, rw := range nc.Rewrites {
+		inFile = append(inFile, c06Entry{Domain: rw.Domain, Answer: rw.Answer})
+	}
+	nc.DataDir = dataDir
+	nd, err = New(nc, nil)
+
+	return nd, inFile, err
+}
+
+// c06FileDiffKinds names the kinds of the lines that stand in the
+// configuration file with another pattern (case aside) or another answer than
+// in the running table; "file-identical" if there is none.
+func c06FileDiffKinds(table, inFile []c06Entry) string {
+	if len(table) != len(inFile) {
+		return "line-count"
+	}
+	seen := map[string]bool{}
+	for i, e := range table {
+		if strings.EqualFold(e.Domain, inFile[i].Domain) && e.Answer == inFile[i].Answer {
+			continue
+		}
+		switch r := c06Read(e); {
+		case r.kind == c06KindA || r.kind == c06KindAAAA:
+			seen["address"] = true
+		case r.kind == c06KindExcA || r.kind == c06KindExcAAAA:
+			seen["exception"] = true
+		default:
+			seen["cname"] = true
+		}
+	}
+	var ks []string
+	for _, k := range []string{"address", "cname", "exception"} {
+		if seen[k] {
+			ks = append(ks, k)
+		}
+	}
+	if len(ks) == 0 {
+		return "file-identical"
+	}
+
+	return "altered-in-file-" + strings.Join(ks, "+")
 }
